@@ -7,7 +7,7 @@
    a handle to it is used: handles are written through immediately).  Fibers are addressed
    by their coordinate path from the root.  Sources: fiber.py getPayload 751-865,
    getPayloadRef 868-962, _createDefault/_instantiateDefault 1574-1696, __setitem__
-   2042-2117, clear 2296-2309, append 2320-2353, updateCoords 2401-2513, updatePayloads
+   2048-2130, clear 2296-2309, append 2320-2353, updateCoords 2401-2513, updatePayloads
    2516-2564, _coord2pos 4967-5051; iterators.py iterRangeShapeRef 224-256; rank.py append
    414-485. *)
 From Coq Require Import ZArith List Bool.
@@ -327,7 +327,9 @@ Inductive op :=
 | OAppendFib (path : list Z) (c : Z) (t : tree)      (* f.append(c, <fiber t>), f interior *)
 | OExtend (path : list Z) (t : tree)                 (* f.extend(<fiber t>), any rank *)
 | OSetItemFib (path : list Z) (pos : Z) (t : tree)   (* f[pos] = <fiber t>, f interior *)
-| OAssignFib (path : list Z) (t : tree)              (* f <<= <fiber t>, any rank *).
+| OAssignFib (path : list Z) (t : tree)              (* f <<= <fiber t>, any rank *)
+| OSetItemCF (path : list Z) (pos : Z) (c : Z) (t : tree)
+      (* f[pos] = CoordPayload(c, <fiber t>), f interior: coordinate AND fiber payload *).
 
 Inductive res := RNone | RPay (t : itree) | RPos (p : option nat).
 
@@ -521,7 +523,8 @@ Definition assign_fib (l : fib) (lvl : nat) (es : ifib) (nx : nat) (rk : list (l
   : ifib * nat * list (list nat) :=
   load_es lvl l nx (drop_dead (all_ids_fib es) rk).
 
-Definition step (s : st) (o : op) : st * outcome :=
+(* every operation but OSetItemCF (which [step] below composes from two of these) *)
+Definition step0 (s : st) (o : op) : st * outcome :=
   let n := nranks s in
   match o with
   | OGetRef pt w =>
@@ -724,6 +727,35 @@ Definition step (s : st) (o : op) : st * outcome :=
       else (s, BadAddress)
     | Leaf _ => (s, BadAddress)
     end
+  | OSetItemCF _ _ _ _ => (s, BadAddress)     (* handled by [step] *)
+  end.
+
+(* f[pos] = CoordPayload(c, <fiber t>) on an interior fiber f (fiber.py __setitem__ 2048-2130).
+   The statement order of __setitem__ is
+     2096-2099  position normalised; IndexError when negative beyond the start
+     2111-2120  coord is not None: CoordinateError when c <= coords[position-1] or
+                c >= coords[position+1] (an out-of-range position raises IndexError or
+                CoordinateError here or at 2122) - nothing has been written yet
+     2122       coords[position] = c
+     2127-2130  payload is not None: _disownPayload(payloads[position]);
+                payloads[position] = fiber; _registerPayload(fiber)
+   i.e. exactly the coordinate-only assignment f[pos] = CoordPayload(c, None) (OSetItem with
+   ov = None: lines 2096-2122) followed, when that was accepted, by the fiber-only assignment
+   f[pos] = <fiber t> (OSetItemFib: lines 2096-2099 again - same position, the length has not
+   changed - and 2127-2130).  A refused coordinate leaves everything (tree, rank lists,
+   owners) as it was: the old sub-fiber is released only after the coordinate was accepted.
+   The guard is OSetItemFib's (f interior, the argument a well-formed fiber of the right
+   depth). *)
+Definition step (s : st) (o : op) : st * outcome :=
+  match o with
+  | OSetItemCF path pos c t =>
+    if Nat.ltb (S (length path)) (nranks s) && plain_wf (nranks s - S (length path)) t then
+      match step0 s (OSetItem path pos (Some c) None) with
+      | (s1, Done _) => step0 s1 (OSetItemFib path pos t)
+      | (_, out) => (s, out)
+      end
+    else (s, BadAddress)
+  | _ => step0 s o
   end.
 
 Definition run (s : st) (ops : list op) : st := fold_left (fun s o => fst (step s o)) ops s.
